@@ -288,6 +288,10 @@ func cmdEval(prop string, n int, seed uint64, driver, out, corpus string) (*Resu
 			pp = "FULL"
 		}
 		gp, mp := project(pp, gout), project(pp, mo)
+		if pp == "C19" && gp != mp && hasUnparsedLog(gout) {
+			knownFlagKeys = flagKeysOf(c)
+			gp, mp = project("C19-coarse", gout), project("C19-coarse", mo)
+		}
 		if mo.Status == 99 {
 			res.Notes = append(res.Notes, fmt.Sprintf("case %d: model could not decode the case (harness bug)", i))
 		}
@@ -366,4 +370,22 @@ func writeKernelSample(out string, lines, answers []string, k int) {
 	txt := strings.Replace(sb.String(), "Definition kernel_mismatches", "Fixpoint idx_false (i : nat) (l : list bool) : list nat := match l with [] => [] | b :: r => (if b then [] else [i]) ++ idx_false (Datatypes.S i) r end.\nDefinition filter_idx := idx_false O.\nDefinition kernel_mismatches", 1)
 	txt += "Print kernel_mismatches.\n"
 	os.WriteFile(filepath.Join(out, "cases.v"), []byte(txt), 0o644)
+}
+
+func hasUnparsedLog(o *Out) bool {
+	for _, x := range o.Trace {
+		if x.tag() == 5 && x.at(2).tag() == 50 {
+			return true
+		}
+	}
+	return false
+}
+
+func flagKeysOf(c *EvalCase) []string {
+	ks := []string{c.Top.Key}
+	for _, it := range c.Flags {
+		ks = append(ks, it.Key)
+	}
+	sort.Slice(ks, func(i, j int) bool { return len(ks[i]) > len(ks[j]) })
+	return ks
 }
